@@ -21,8 +21,15 @@
 (* Abstraction of a CSR:  [uris : Seq(IdShape), dns, ips, emails : Nat]              *)
 (*   IdShape = [kind, td, dc, name, enc, ap]                                          *)
 (*     kind : "service" "agent" "server" "mesh-gateway" "signing" "garbage"           *)
-(*     td   : "own" (the cluster's trust domain, canonical lower case), "ownUpper"    *)
-(*            (same host, case-varied), "foreign"                                     *)
+(*     td   : how the authority part of the URI is spelled.  The HOST component equals *)
+(*            the cluster's trust domain under ASCII case folding for                 *)
+(*              "own" (canonical lower case), "ownUpper" (case-varied), "ownUser"     *)
+(*              (user-info in front: userinfo@host)                                   *)
+(*            and does NOT for "foreign" (another name) and for the spellings a URL   *)
+(*            parser tolerates around the very same name: "ownPort" (host:port),      *)
+(*            "ownUpperPort", "ownEmptyPort" (host:), "ownUserPort", and the odd      *)
+(*            ones "ownDot" (trailing dot), "ownBracket" ([host]), "ipv6" ([::1]),    *)
+(*            which a CSR parser may reject outright.                                 *)
 (*     dc   : "own" "other"                                                           *)
 (*     name : base name of the principal (service / node)                             *)
 (*     enc  : how the principal segment is written in the URI:  "plain", "pct"        *)
@@ -36,6 +43,10 @@
 EXTENDS Integers, Sequences, FiniteSets, TLC
 
 Supported == {"service", "agent", "server", "mesh-gateway"}
+\* SpiffeIDSigning.CanSign: the host component must equal the trust domain exactly under ASCII case folding
+OwnTds == {"own", "ownUpper", "ownUser"}
+\* authority spellings that crypto/x509 may refuse to parse at all (then nothing is issued)
+OddTds == {"ownDot", "ownBracket", "ipv6"}
 
 \* the spelling of the principal that a parser (and therefore a verifier) sees
 Variant(enc) == IF enc \in {"plain", "pct"} THEN "exact" ELSE IF enc = "case" THEN "upper" ELSE "slash"
@@ -69,7 +80,8 @@ Refuse(why) == [d |-> "refuse", why |-> why, id |-> NoId]
 (*   - server identities requested with acl:write (the statement only lists service, *)
 (*     node and mesh scopes; the code issues; without acl:write it MUST refuse),      *)
 (*   - agent identities carrying a non-default partition (CE has no partitions; the   *)
-(*     code refuses them for services and gateways but not for agents).               *)
+(*     code refuses them for services and gateways but not for agents),               *)
+(*   - agent CSRs whose authority is one of OddTds (the CSR parser may reject them).   *)
 (* Named deviation AgentCSRTrustDomainRewritten: an agent CSR may come from ANY       *)
 (*  trust domain (auto-encrypt / auto-config clients do not know the cluster id yet); *)
 (*  it is accepted and the leaf must then carry the CLUSTER's trust domain.           *)
@@ -80,10 +92,10 @@ Decide(csr, authz) ==
     IF id.kind = "garbage" THEN Refuse("unparsable")
     ELSE IF id.kind \notin Supported THEN Refuse("kind")
     ELSE IF id.ap # "default" /\ id.kind # "agent" THEN Refuse("partition")
-    ELSE IF id.td = "foreign" /\ id.kind # "agent" THEN Refuse("trust-domain")
+    ELSE IF id.td \notin OwnTds /\ id.kind # "agent" THEN Refuse("trust-domain")
     ELSE IF id.dc # "own" THEN Refuse("datacenter")
     ELSE IF Scope(id) \notin authz THEN Refuse("scope")
-    ELSE [d |-> IF id.kind = "server" \/ id.ap # "default" THEN "any" ELSE "issue", why |-> "", id |-> id]
+    ELSE [d |-> IF id.kind = "server" \/ id.ap # "default" \/ id.td \in OddTds THEN "any" ELSE "issue", why |-> "", id |-> id]
 
 \* the identity an issued leaf must carry, compared with the identity a verifier parses
 \* FROM THE CERTIFICATE (cid).  Trust domain: the cluster's, host names compared case-insensitively.
@@ -130,6 +142,16 @@ RootsReplacedOrKept(pre, c, post) ==
   ELSE post.roots = pre.roots
 CfgReplaced(pre, c, post) == post.cfg.mi = c.idx
 RootsReplaced(pre, c, post) == post.ridx = c.idx
+
+(* RacingRootWrite: a writer outside the CAManager's lock (Server.pruneCARoots issues CAOpSetRoots through *)
+(* raft on its own) commits between the manager's read of Store.CARoots and the manager's conditional     *)
+(* write.  The racing command re-writes the current roots at the current index: the root set stays, only   *)
+(* the index of the table moves - and the manager's CAOpSetRootsAndConfig / CAOpSetRoots is then stale.    *)
+RacingRootWrite(s, idx) == ApplyRoot(s, [t |-> "set-roots", idx |-> idx, cas |-> s.ridx, roots |-> s.roots]).st
+
+\* what a raced (or any failed) reconfiguration must leave behind: same root set, same configuration
+SameRootsAndConfig(pre, post) == post.roots = pre.roots /\ post.cfg = pre.cfg
+
 NoConfigWithoutRoots(pre, c, post) == c.t = "set-roots-and-config" /\ CfgReplaced(pre, c, post) => RootsReplaced(pre, c, post)
 NoRootsWithoutConfig(pre, c, post) == c.t = "set-roots-and-config" /\ RootsReplaced(pre, c, post) => CfgReplaced(pre, c, post)
 =============================================================================
